@@ -120,11 +120,26 @@ def refeval(desc: dict, output: str, kwargs: dict) -> tuple[Any, dict, list]:
 
 def shared_defaults(desc: dict) -> dict:
     d: dict = {}
+    prod = producers(desc)
     for f in desc["funcs"]:
         for p, v in f.get("defaults", {}).items():
-            if p not in f.get("bound", {}):
+            if p not in f.get("bound", {}) and p not in prod:
                 d[p] = v
     return d
+
+
+def conflicting_defaults(desc: dict) -> set:
+    """Parameters with different signature defaults in different functions.  While an upstream function produces such
+    a parameter the pipeline is well-formed; any pipeline in which it becomes a *root* argument (producer cut off,
+    consumers nested together) is ill-formed by the library's own rule (inconsistent defaults, C12) and is refused."""
+    seen: dict = {}
+    out = set()
+    for f in desc["funcs"]:
+        for p, v in f.get("defaults", {}).items():
+            if p in seen and seen[p] != v:
+                out.add(p)
+            seen.setdefault(p, v)
+    return out
 
 
 def needed_roots(desc: dict, output: str, supplied: set) -> set:
@@ -180,6 +195,10 @@ def gen_dag(rng: random.Random, n_funcs: int = 3, allow_multi=True, allow_defaul
                 f.setdefault("defaults", {})[p] = defaults_seen[p]
             elif allow_bound and rng.random() < 0.1:
                 f.setdefault("bound", {})[p] = f"B_{p}_{q}"
+            elif p not in ROOTS and allow_defaults and rng.random() < 0.12:
+                # a signature default for an argument that an upstream function produces: never used (upstream wins),
+                # and free to differ between consumers
+                f.setdefault("defaults", {})[p] = f"D_{p}_{q}"
             if allow_renames and rng.random() < 0.15:
                 f.setdefault("orig", {})[p] = f"{p}_in{q}"
         if n_out == 1 and rng.random() < 0.12:
